@@ -53,7 +53,7 @@ def run(ctx, broken):
 
 
 def known(f, kf):
-    if f.get("case"):
+    if f.get("case") and f.get("cls_origin") != "C15 stream":
         c = mcommon.parse_case(f["case"])
         if mcommon.known_repr(c) and f["class"] == "decision":
             for k in kf.get("known", []):
